@@ -142,7 +142,17 @@ fn cname(p: &MuxFaultPlan) -> &'static str {
 pub fn oracle(p: &MuxFaultPlan, o: &MuxOutcome) -> Vec<Violation> {
     let mut v = Vec::new();
     let key = |sym: &str| format!("{sym}|h2front;cause={}", cname(p));
-    if let Some(pn) = &o.panicked { v.push(Violation::new("panic", key("worker"), pn.clone())); }
+    if let Some(pn) = &o.panicked {
+        // key = the panic message with numbers blanked, and the plan-level trigger of the recorded kawa defect
+        // (C13-P1 / C03-F9: out-of-order slices in a request head + partial writes toward the backend): the
+        // plan injects short writes / EAGAIN. Everything else in such a run is a consequence of the crash.
+        let mut k = String::new();
+        let mut last_digit = false;
+        for c in pn.chars().take(90) { if c.is_ascii_digit() { if !last_digit { k.push('N'); } last_digit = true; } else { k.push(if c == ' ' { '_' } else { c }); last_digit = false; } }
+        let trig = if p.mux.sched.short_write_pm > 0 || p.mux.sched.eagain_pm > 0 { "h2_request_head_to_h1_backend_with_injected_short_writes" } else { "none" };
+        v.push(Violation::new("panic", format!("worker:{k}|{trig}"), pn.clone()));
+        return v;
+    }
     if let Some(a) = &o.aborted { v.push(Violation::new("no_exit", key(a), format!("run aborted: {a}"))); }
     let rec = &o.h2_clients[0];
     if let Some(e) = rec.connect_err { v.push(Violation::new("no_answer", key("connect_failed"), format!("h2 client could not connect: errno {e}"))); return v; }
